@@ -329,6 +329,7 @@ class _FuncTaint:
             if name in eng.p.module_funcs:
                 if eng.ret[name] == "FRESH":
                     return False, ""
+                eng.__dict__.setdefault("dep", {}).setdefault(self.fi.qualname, set()).add(name)
                 t, why = self.any_T(args)
                 return t, (f"{name}() derives its result from {why}" if t else "")
             if name == "super":
@@ -352,6 +353,7 @@ class _FuncTaint:
             if m is not None:
                 if eng.ret[m.qualname] == "FRESH":
                     return False, ""
+                eng.__dict__.setdefault("dep", {}).setdefault(self.fi.qualname, set()).add(m.qualname)
                 t, why = self.any_T(args)
                 return t, (f"{m.qualname}() derives its result from {why}" if t else "")
         # method call on an object
@@ -378,6 +380,7 @@ class _FuncTaint:
             derived = [m for m in targets if eng.ret[m.qualname] == "DERIVED"]
             if not derived:
                 return False, ""
+            eng.__dict__.setdefault("dep", {}).setdefault(self.fi.qualname, set()).update(m.qualname for m in derived)
             t, why = self.any_T([recv] + args)
             return t, (f"{derived[0].qualname}() may return objects owned by its receiver/arguments, here {why}" if t else "")
         if name in ("get", "pop", "copy", "items", "values", "keys", "setdefault", "__getitem__"):
@@ -496,8 +499,10 @@ def _opaque_functions(eng: OwnershipEngine) -> set:
     changed = True
     while changed:
         changed = False
+        deps = getattr(eng, "dep", {})
         for q, w in whys.items():
-            if q not in out and any(f"{o}()" in w for o in out):
+            # (by the callees recorded while the verdict was computed, not by which of them the explanation happens to name)
+            if q not in out and (any(f"{o}()" in w for o in out) or (deps.get(q, set()) & out)):
                 out.add(q)
                 changed = True
     eng._opaque = out
